@@ -51,4 +51,20 @@ PROPS = {
         state_measure="digest of (canonical trie shape of the model content, store kind)",
         assumptions=[ROCKS_ASSUMPTION, "node loss is injected below the NodeDB interface (memory map / simulated disk), the trie object under test is created afterwards with an empty cache (a warm cache legitimately still serves removed nodes)"],
     ),
+    "C04": mpt(
+        level="fault_enumeration",
+        quick=dict(runs=16000, budget_s=90), thorough=dict(runs=1200000, budget_s=1500),
+        rule="multi-round histories (1-5 rounds; each round a block state over LevelNodeDB(memory, prior) at version=round with 0-4 transaction children of 1-5 inserts/deletes each, merged or discarded, plus direct block updates; save lag 0-2 rounds; optional rebase onto the persistent store after saving), each round saved with RecordDeadNodes + SaveChanges(includeDeletes=false) to the real PNodeDB on the simulated RocksDB. After every save a fresh trie on the persistent store ALONE must read every saved round completely with its original content. Crash enumeration, exhaustive per history: for EVERY prefix of the save's write stream (process crash) plus two sampled power-loss prefixes inside earlier rounds' streams (not before the last Flush), the surviving disk is cloned, reopened with NewPNodeDB, every round whose save lies inside the prefix must read completely, and the interrupted round(s) are re-executed from the script and re-saved: same root, complete content. evaluations = histories; crash_points = crash states explored; non-trivial = history with >= 2 mutations and >= 1 crash point",
+        state_measure="digest of the saved content per round",
+        assumptions=[ROCKS_ASSUMPTION,
+                     "write batches are atomic (the property says so); a process crash keeps every completed write, a power loss keeps a prefix of the write log not shorter than the last Flush",
+                     "cancelling the context of SaveChanges is not explored: the spawned writer cannot be joined and select chooses among ready cases pseudo-randomly, so the outcome is not a function of the seed (DESIGN.md section 5, C04)"],
+    ),
+    "C05": mpt(
+        level="fault_enumeration",
+        quick=dict(runs=16000, budget_s=90), thorough=dict(runs=1200000, budget_s=1500),
+        rule="multi-round histories as in C04 (2-8 rounds; small value domain so that delete-then-recreate of byte-identical content is common inside a round across sibling transactions and across rounds; rare long runs of 40-80 rounds accumulate > 1000 dead nodes so that prune issues several delete batches) with PruneBelowVersion(v) for v from below the first to above the last round, interleaved with further rounds. Oracle 1: for every round r the recorded dead set D_r is disjoint from the node set reachable (harness walk over the persistent store) from the root of r and of every later round. Oracle 2: after prune(v), and for EVERY prefix of the prune's write stream (crash inside prune) and again after re-running prune on the crashed disk: every root saved at a version >= v reads completely with its original content from the persistent store alone; every deleted node key was recorded dead by a round < v; after a completed prune the records of rounds < v are gone. evaluations = histories; crash_points = crash states explored",
+        state_measure="digest of the saved content per round",
+        assumptions=[ROCKS_ASSUMPTION, "pruning runs against saved state (all executed rounds are saved before a prune); batches are atomic"],
+    ),
 }
